@@ -45,6 +45,13 @@ theorem C06_counters_sized :
     countersSized "F256RevBMemory" Generated.F256RevBMemory_TakeSnapshot Generated.F256RevBMemory_ClearStatistics = true :=
   counters_sized
 
+/-- every access counter of every memory model is declared as a 64-bit counter (regenerated fact): a count cannot
+    wrap around in any run that can be executed, so "the statistic equals the number of accesses" is not limited by
+    the counter's width -/
+theorem C06_counters_wide :
+    Generated.counterFieldTypes.all (fun e => e.2.2 == "[]uint64" || e.2.2 == "uint64") = true ∧
+    Generated.counterFieldTypes.length ≥ 9 := counters_wide
+
 -- non-vacuity: two accesses to one window address under two banks count on two different bytes
 example :
     let k := MemKind.x16 64
